@@ -221,17 +221,21 @@ type listCase struct {
 	infos    []*resource.Info
 	brief    []string
 	exposure bool
+	focus    string // --focusworkload ("" = none): the formats must encode the computed (filtered) result all the same
 }
 
 func evalList(cs listCase, x *fw.Rec) {
 	x.Describe(func() any {
-		return map[string]any{"world": cs.brief, "exposure": cs.exposure, "manifests": wm.InfoYAML(cs.infos)}
+		return map[string]any{"world": cs.brief, "exposure": cs.exposure, "focusworkload": cs.focus, "manifests": wm.InfoYAML(cs.infos)}
 	})
 	var oc []string
 	for _, f := range ListFormats {
 		opts := []connlist.ConnlistAnalyzerOption{connlist.WithLogger(wm.Quiet()), connlist.WithMuteErrsAndWarns(), connlist.WithOutputFormat(f)}
 		if cs.exposure {
 			opts = append(opts, connlist.WithExposureAnalysis())
+		}
+		if cs.focus != "" {
+			opts = append(opts, connlist.WithFocusWorkload(cs.focus))
 		}
 		ca := connlist.NewConnlistAnalyzer(opts...)
 		conns, _, err := ca.ConnlistFromResourceInfos(cs.infos)
@@ -402,7 +406,7 @@ func CheckDiff(format, out string, d wm.DiffResult) [][2]string {
 }
 
 func Run(r *fw.Run) {
-	r.Rule = "list: worlds from the exposure scopes (entries of every kind: entire-cluster, namespace name, namespace selector, pod selector with expressions, named ports, unprotected workloads), the ingress scopes ({ingress-controller} lines), ANP stacks and a shape scope (multi-protocol multi-range sets, IP ranges from excepts, namespace names with '-'); each analysed with every format, with and without exposure; every output is parsed back by independent parsers and compared with the relation built from the API objects (peers by String(), connections structurally, exposure entries by parsed selectors); diff: ordered pairs of the C04 family in every diff format incl. dot (unchanged edges, peer colours); non-trivial = non-empty report; distinct = distinct txt outputs"
+	r.Rule = "list: worlds from the exposure scopes (entries of every kind: entire-cluster, namespace name, namespace selector, pod selector with expressions, named ports, unprotected workloads), the ingress scopes ({ingress-controller} lines), ANP stacks and a shape scope (multi-protocol multi-range sets, IP ranges from excepts, namespace names with '-'); each analysed with every format, with and without exposure (ingress scopes also with --focusworkload ingress-controller / a workload name); every output is parsed back by independent parsers and compared with the relation built from the API objects (peers by String(), connections structurally, exposure entries by parsed selectors); diff: ordered pairs of the C04 family in every diff format incl. dot (unchanged edges, peer colours); non-trivial = non-empty report; distinct = distinct txt outputs"
 	r.Assume = []string{"the parsers in /verif/parse are the trusted base", "dot names representative peers '<pod>_in_<namespace>' without brackets and does not repeat the IP connections in its exposure part: compared after that renaming",
 		"the exposure sections of txt/json/csv/md repeat the IP connections of every workload listed in ExposedPeers(); this is read off the tool's behaviour and asserted as part of 'exactly the exposure entries'"}
 	if r.Quick() {
@@ -421,7 +425,7 @@ func Run(r *fw.Run) {
 			w := sc.Gen(c)
 			exp := c.Choose(2, "exposure") == 1
 			c.Stride(stride)
-			return listCase{w.Infos(), w.Brief(), exp}
+			return listCase{w.Infos(), w.Brief(), exp, ""}
 		}, evalList)
 	}
 	for name, gen := range map[string]func(*fw.Ctx) *wm.World{"ingress": c10.GenIngress, "route": c10.GenRoute, "ingress+route": c10.GenBoth} {
@@ -433,8 +437,9 @@ func Run(r *fw.Run) {
 		fw.Explore(r, "list/"+name, fw.Full, func(c *fw.Ctx) listCase {
 			w := gen(c)
 			exp := c.Choose(2, "exposure") == 1 && len(w.ANPs) == 0 && w.BANP == nil
+			focus := fw.Pick(c, []string{"", "ingress-controller", "w1", "ns1/w1"}, "--focusworkload")
 			c.Stride(stride)
-			return listCase{w.Infos(), w.Brief(), exp}
+			return listCase{w.Infos(), w.Brief(), exp, focus}
 		}, evalList)
 	}
 	for _, sc := range c02.Scopes(true) {
@@ -445,7 +450,7 @@ func Run(r *fw.Run) {
 		fw.Explore(r, "list/anp/"+sc.Name, sc.Mode, func(c *fw.Ctx) listCase {
 			w := sc.Gen(c)
 			c.Stride(map[bool]int{true: 30, false: 3}[q])
-			return listCase{w.Infos(), w.Brief(), false}
+			return listCase{w.Infos(), w.Brief(), false, ""}
 		}, evalList)
 	}
 	// shape scope
@@ -481,7 +486,7 @@ func Run(r *fw.Run) {
 			np.Types, np.Ingress, np.Egress = []string{"Ingress", "Egress"}, rs[:1], rs[1:]
 		}
 		w.NPs = []wm.NP{np, {NS: "ns1", Name: "only-in", PodSel: *wm.ML("app", "c"), Types: []string{"Ingress"}, Ingress: []wm.NPRule{{Peers: []wm.NPPeer{{CIDR: "10.0.0.0/9"}, shapePeers[p2]}, Ports: shapePorts[1]}}}}
-		return listCase{w.Infos(), w.Brief(), exp}
+		return listCase{w.Infos(), w.Brief(), exp, ""}
 	}, evalList)
 
 	// the CLI's -f FILE: the file (which exists already and is longer) must hold exactly the encoding of the result
